@@ -2,7 +2,11 @@
 
 package metadatapart
 
-import "github.com/jdillenkofer/pithos/internal/storage"
+import (
+	"time"
+
+	"github.com/jdillenkofer/pithos/internal/storage"
+)
 
 // Pure specification functions used by the contracts in zz_contracts_verif.go.
 // They are written from the property statements (RFC 7233 byte ranges), not from the code they judge.
@@ -62,4 +66,25 @@ func specWellFormedRange(r storage.ByteRange) bool {
 // specNonEmptyWithin: an absolute range [Start, End) that selects at least one byte of an object of the given size.
 func specNonEmptyWithin(r storage.ByteRange, size int64) bool {
 	return r.Start != nil && r.End != nil && 0 <= *r.Start && *r.Start < *r.End && *r.End <= size
+}
+
+// specCopyConditionsFail: S3 x-amz-copy-source-if-* semantics (time comparisons at second granularity; a passing
+// If-Match overrides If-Unmodified-Since). The bucket-routing middleware states the same specification for its
+// cross-storage copies (internal/storage/middlewares/conditional).
+func specCopyConditionsFail(c storage.CopySourceConditions, etag string, lastModified time.Time) bool {
+	lm := lastModified.Truncate(time.Second)
+	matchOK := c.IfMatch != nil && (*c.IfMatch == storage.ETagWildcard || *c.IfMatch == etag)
+	if c.IfMatch != nil && !matchOK {
+		return true
+	}
+	if c.IfNoneMatch != nil && (*c.IfNoneMatch == storage.ETagWildcard || *c.IfNoneMatch == etag) {
+		return true
+	}
+	if c.IfUnmodifiedSince != nil && !matchOK && lm.After(*c.IfUnmodifiedSince) {
+		return true
+	}
+	if c.IfModifiedSince != nil && !lm.After(*c.IfModifiedSince) {
+		return true
+	}
+	return false
 }
